@@ -218,6 +218,26 @@ def run(ctx):
             f"lookup of (known ip, other port) -> {'None' if r is None else 'a record'}; auto-create makes a second record: {isinstance(c, AObj) and c is not a}; len {n1} -> {n2}", s
     scenario("same-ip-other-port", s_same_ip_other_port, "create/guarded")
 
+    def s_boundary_ports(I):
+        # constant evaluation at the boundary values of the 16-bit port: every pair of distinct ports of one ip is two addresses
+        ports = (0, 1, 0x7FFF, 0x8000, 0xFFFE, 0xFFFF)
+        bad = []
+        for p_ in ports:
+            for q_ in ports:
+                if p_ == q_:
+                    continue
+                s = fresh(I)
+                a = I.call(mi, [s], {"address": (A[0], p_), "auto_create": True})
+                r = I.call(mi, [s], {"address": (A[0], q_)})
+                c = I.call(mi, [s], {"address": (A[0], q_), "auto_create": True})
+                again = I.call(mi, [s], {"address": (A[0], p_)})
+                n = I.call(ln, [s], {})
+                if not (isinstance(a, AObj) and r is None and isinstance(c, AObj) and c is not a and again is a and n == 2
+                        and a.attrs.get("address_in") == (A[0], p_) and c.attrs.get("address_in") == (A[0], q_)):
+                    bad.append((p_, q_))
+        return not bad, f"{len(ports) * (len(ports) - 1)} ordered pairs of boundary ports; pairs that are not kept apart: {bad[:4]}", s
+    scenario("boundary-ports", s_boundary_ports, "create/guarded")
+
     def s_patch_all_fields(I):
         s = fresh(I)
         a = I.call(mi, [s], {"address": A, "auto_create": True})
